@@ -100,6 +100,8 @@ def get_attr(eng, o, attr, node):
             if eng.contract.missing_attr_raises:
                 raise RaiseExc("AttributeError", (), node, implicit=True)
             raise EngineError("object has no field %s at %s" % (attr, eng._anchor(node)))
+        if k in ("pattern", "match"):
+            return BuiltinMethod(o, attr)
         if k == "path":
             if attr == "parts":
                 return eng.get_field(o, "parts")
@@ -509,9 +511,15 @@ def get_item(eng, o, idx, node):
         if k == "dict":
             if isinstance(idx, (SOpq,)) and eng.abstract:
                 return eng.opaque_call("dict.__getitem__", o, [idx], {}, node)
-            if is_sym(idx):
-                raise EngineError("symbolic dict key")
             d = eng.get_field(o, "items")
+            if is_sym(idx):
+                # symbolic key into a dict with concrete keys: case split over the keys, KeyError otherwise
+                for kk in list(d.keys()):
+                    if is_sym(kk):
+                        raise EngineError("symbolic dict key")
+                    if isinstance(kk, (str, bytes)) and eng.branch(V.eq(idx, kk)):
+                        return d[kk]
+                raise RaiseExc("KeyError", (idx,), node, implicit=True)
             pres = eng.get_field(o, "presence") if eng.has_field(o, "presence") else {}
             if idx in pres:
                 eng.safety(pres[idx], "KeyError", "key-present", node)
@@ -717,6 +725,14 @@ def call_method(eng, o, name, args, kwargs, node):
             return dict_method(eng, o, name, args, kwargs, node)
         if k == "bytearray":
             return bytearray_method(eng, o, name, args, kwargs, node)
+        if k == "pattern":
+            if name == "match" and eng.get_field(o, "pattern") == UNIT_PATTERN:
+                return match_unit_pattern(eng, args[0], node)
+            raise EngineError("regex pattern %r is not modelled" % eng.get_field(o, "pattern"))
+        if k == "match":
+            if name == "group":
+                return eng.get_field(o, "groups")[args[0]]
+            raise EngineError("match method %s" % name)
         if k == "path":
             if name == "is_absolute":
                 return eng.get_field(o, "absolute")
@@ -1875,6 +1891,33 @@ def _pathlib_path(eng, args, kwargs, node):
 
 def _is_alpha(ch):
     return V.Or(V.And(ch >= 65, ch <= 90), V.And(ch >= 97, ch <= 122))
+
+
+UNIT_PATTERN = r"^([0-9]+)([bkmg]?)$"
+
+
+def match_unit_pattern(eng, s0, node):
+    """re.compile(r"^([0-9]+)([bkmg]?)$", re.IGNORECASE).match(s): either None or a match whose groups D, U satisfy
+    s == D ++ U ++ T, D one or more ASCII digits, U empty or one of bkmgBKMG, T empty or a single newline
+    (`$` also matches before a trailing newline) - assumed contract of `re` for this literal pattern"""
+    from .contract import ForAll
+
+    ss = V.to_seq(s0)
+    if not eng.branch(eng.fresh_bool("unit_pattern_matches")):
+        eng.ghost["unit_match"] = None
+        return None
+    D = eng.fresh_seq("digits", "char", "str")
+    U = eng.fresh_seq("unit", "char", "str")
+    T = eng.fresh_seq("tail", "char", "str")
+    eng.assume(V.eq(ss, V.cat(D, U, T)))
+    eng.assume(V.L(D) >= 1)
+    eng.register_forall(ForAll(lambda k: V.And(V.nth(D, k) >= 48, V.nth(D, k) <= 57), guard=lambda k: V.And(k >= 0, k < V.L(D)), over=D))
+    units = [ord(ch) for ch in "bkmgBKMG"]
+    eng.assume(V.Or(V.L(U) == 0, V.And(V.L(U) == 1, V.Or(*[V.nth(U, 0) == u for u in units]))))
+    eng.assume(V.Or(V.L(T) == 0, V.And(V.L(T) == 1, V.nth(T, 0) == 10)))
+    eng.pc.append(V.uf("is_decimal", V.seq_sort("char"), z3.BoolSort())(D.t))
+    eng.ghost["unit_match"] = (D, U, T)
+    return eng.alloc("match", groups=(ss, D, U))
 
 
 @ext("re.match")
